@@ -319,14 +319,24 @@ func gsub(t *rt.Thread, c *rt.GoCont) (rt.Cont, error) {
 		sb         strings.Builder // Build the result string into this
 		matchCount int64
 		allowEmpty = true
+		replaced   bool                            // true once something has been written to sb
+		anchored   = len(ptn) > 0 && ptn[0] == '^' // the pattern can only match at the start
 	)
 	// We require memory for the string we build as we go along.  In order to
 	// save allocations in case there are no substitutions, we do not start
 	// copying the string until one substitution has actually taken place.  This
 	// is achieved by keeping the variable sj the same until bytes are written
 	// in the string builder.
-	for ; matchCount != n; matchCount++ {
-		captures, usedCPU := pat.Match(string(s), si, t.UnusedCPU())
+	for matchCount != n {
+		var (
+			captures []pattern.Capture
+			usedCPU  uint64
+		)
+		if anchored {
+			captures, usedCPU = pat.MatchFromStart(string(s), si, t.UnusedCPU())
+		} else {
+			captures, usedCPU = pat.Match(string(s), si, t.UnusedCPU())
+		}
 		t.RequireCPU(usedCPU)
 		if len(captures) == 0 {
 			break
@@ -334,11 +344,14 @@ func gsub(t *rt.Thread, c *rt.GoCont) (rt.Cont, error) {
 		gc := captures[0]
 		start, end := gc.Start(), gc.End()
 		if allowEmpty || start != si || end != si {
+			// Only matches that are accepted count (and use up n).
+			matchCount++
 			sub, same, err := replF(captures)
 			if err != nil {
 				return nil, err
 			}
 			if !same {
+				replaced = true
 				t.RequireBytes(start - sj)
 				// No need to require memory for sub as that has been done already
 				// by replF
@@ -353,10 +366,13 @@ func gsub(t *rt.Thread, c *rt.GoCont) (rt.Cont, error) {
 		} else {
 			si = end
 		}
+		if anchored {
+			break
+		}
 	}
 	var res rt.Value
 	switch {
-	case sb.Len() == 0:
+	case !replaced:
 		// We return the input string to save an allocation.
 		res = c.Arg(0)
 	case sj < len(s):
